@@ -164,6 +164,30 @@ def _q_args(q):
 # optimizer construction ("process start")
 
 
+_TRIAL_FAULT = {"armed": False, "fired": 0, "registered": False}
+
+
+def _faulty_greedy_trial(inputs, output, size_dict, **kw):
+    """greedy, except while the simulator has the trial fault armed: then every trial raises (a crashing backend,
+    a solver that times out ...), which the hyper-optimizer is documented to survive (on_trial_error)."""
+    if _TRIAL_FAULT["armed"]:
+        _TRIAL_FAULT["fired"] += 1
+        raise RuntimeError("injected trial failure")
+    from cotengra.pathfinders.path_greedy import trial_greedy
+
+    return trial_greedy(inputs, output, size_dict, **kw)
+
+
+def _register_faulty():
+    if _TRIAL_FAULT["registered"]:
+        return
+    from cotengra.hyperoptimizers import hyper as H
+
+    H.register_hyper_function("sim-c14-greedy", _faulty_greedy_trial, dict(H._HYPER_SEARCH_SPACE["greedy"]),
+                              dict(H._HYPER_CONSTANTS["greedy"]))
+    _TRIAL_FAULT["registered"] = True
+
+
 def make_optimizer(ctg, cfg, directory):
     kw = dict(directory=directory, overwrite=cfg.get("overwrite", False), hash_method=cfg.get("hash_method", "a"),
               cache_only=cfg.get("cache_only", False), directory_split=cfg.get("directory_split", "auto"))
@@ -274,6 +298,11 @@ def gen_case_c14(seed, tier):
     use_dir = sw.random() < 0.65
     steps = []
     nsteps = sw.randint(3, 14)
+    # fault: during some queries EVERY trial of the inner search fails (the query may fail; nothing wrong may be returned
+    # or stored, and later queries must be answered correctly)
+    trial_faults = kind == "hyper" and sw.random() < 0.3
+    if trial_faults:
+        cfg0["methods"] = ["sim-c14-greedy"]
 
     def gen_cfg_changes():
         ch = {"overwrite": ops_rng.choice([False, False, True, "improved", "improved"]),
@@ -295,6 +324,8 @@ def gen_case_c14(seed, tier):
                           "seed": ops_rng.randrange(2 ** 31),
                           # what the caller does with the returned tree afterwards (it is theirs to modify)
                           "mutate": ops_rng.choice([None, None, None, "remove_ind", "reconf"])})
+            if trial_faults and ops_rng.random() < 0.25:
+                steps[-1]["fail_trials"] = True
         elif r < 0.88:
             steps.append({"step": "restart", "cfg": gen_cfg_changes()})
         else:
@@ -311,8 +342,13 @@ def gen_case_c14(seed, tier):
 
 def run_case_c14(case):
     import cotengra as ctg
+    from sim import seams as _seams
+
+    _seams.hermetic_reset()
 
     simfs.install()
+    _register_faulty()
+    _TRIAL_FAULT["armed"] = False
     log = EventLog()
     counters, faults = C(), C()
     states = set()
@@ -428,6 +464,8 @@ def run_case_c14(case):
                 n0 = sc.n
                 err = None
                 res = None
+                fired0 = _TRIAL_FAULT["fired"]
+                _TRIAL_FAULT["armed"] = bool(st.get("fail_trials"))
                 try:
                     if st["via"] == "search":
                         res = opt.search(*args)
@@ -436,9 +474,30 @@ def run_case_c14(case):
                 except KeyError as e:
                     err = e
                 except Exception as e:
-                    V("query-raised", f"step {si} ({st['via']}) raised {type(e).__name__}: {e}", via=st["via"])
-                    break
+                    if _TRIAL_FAULT["fired"] > fired0:
+                        err = e
+                    else:
+                        V("query-raised", f"step {si} ({st['via']}) raised {type(e).__name__}: {e}", via=st["via"])
+                        break
+                finally:
+                    _TRIAL_FAULT["armed"] = False
                 searched = sc.n - n0
+                if _TRIAL_FAULT["fired"] > fired0:
+                    # every trial of this query's search was made to fail
+                    faults["all_trials_failed"] += 1
+                    log.add("query-with-failed-trials", si, hk, st["via"], None if err is None else type(err).__name__)
+                    if err is not None:
+                        # the query failed: allowed; the library must not have stored anything for it
+                        counters["probe:query_failed_cleanly_after_trial_faults"] += 1
+                        continue
+                    # an answer came back although no trial produced a tree: it must still be an answer to THIS query
+                    why = check_tree(res, q) if st["via"] == "search" else check_path(res, q)
+                    if why:
+                        V("answer-not-for-this-query", f"step {si} (all trials failed): {why}", via=st["via"], variant=q["why"], after_trial_faults=True)
+                        break
+                    # whatever it stored is unknown to the model from here on
+                    model[hk] = {"path": None, "score": None, "sliced": None, "canon": canon_a(q), "q": q}
+                    continue
                 ow = cfg.get("overwrite", False)
                 co = cfg.get("cache_only", False)
                 log.add("query", si, hk, st["via"], searched, None if err is None else "KeyError", ow, co)
@@ -643,6 +702,9 @@ def gen_case_c15(seed, tier):
             "others": others, "byte_fraction": frac, "byte_seed": sw.randrange(2 ** 31),
             "flush": sw.choice(["through", "buffered"]),
             "writer_via": sw.choice(["search", "search", "call", "update_from_tree"]),
+            # the storing process may have two threads storing the same entry through one optimizer object (pre-empted at
+            # line granularity under the seeded baton scheduler); the kill takes all of them at once
+            "writer_threads": sw.choice([1, 1, 1, 2]), "writer_sched": {"seed": sw.randrange(2 ** 31), "p": sw.choice([0.05, 0.2, 0.5])},
             "crosscheck": sw.random() < (0.5 if tier == "thorough" else 0.25),
             "only_points": None}
 
@@ -683,6 +745,8 @@ def _writer(ctg, case, directory, crash_at, exit_mode=False, seed_tag="writer"):
     fsim = simfs.SimFS(os.path.dirname(directory), crash_at=crash_at, exit_mode=exit_mode, buffered=buffered)
     res = None
     crashed = False
+    if case.get("writer_threads", 1) >= 2 and case.get("writer_via", "search") in ("search", "call"):
+        return _writer_threaded(ctg, case, cfg, directory, fsim, seed_tag)
     with simfs.activate(fsim):
         try:
             prng.reseed_globals(prng.H(case["seed"], seed_tag))
@@ -704,6 +768,50 @@ def _writer(ctg, case, directory, crash_at, exit_mode=False, seed_tag="writer"):
                 res = {"path": tree.get_path(), "sliced": tuple(tree.sliced_inds)}
         except simfs.SimCrash:
             crashed = True
+    return fsim, res, crashed
+
+
+def _writer_wl(base, name, full):
+    if "cotengra" not in full:
+        return False
+    return base == "reusable.py" or (base == "utils.py" and name in ("__setitem__", "__getitem__", "__contains__", "_get_fname", "get_fname"))
+
+
+def _writer_threaded(ctg, case, cfg, directory, fsim, seed_tag):
+    """Two threads of the storing process put the same entry through one optimizer object."""
+    from sim import threads as simthreads
+
+    simthreads.install_shim()
+    sc = case["writer_sched"]
+    sched = simthreads.Scheduler(simthreads.WalkChooser(random.Random(sc["seed"]), sc["p"]), _writer_wl, max_points=2_000_000)
+    results = {}
+    via = case.get("writer_via", "search")
+    args = _q_args(case["target"])
+    with simfs.activate(fsim):
+        try:
+            prng.reseed_globals(prng.H(case["seed"], seed_tag))
+            opt = make_optimizer(ctg, cfg, directory)
+        except simfs.SimCrash:
+            return fsim, None, True
+
+        def body(i):
+            def fn():
+                if via == "call":
+                    results[i] = {"path": tuple(tuple(p) for p in opt(*args)), "sliced": None}
+                else:
+                    t = opt.search(*args)
+                    results[i] = {"path": t.get_path(), "sliced": tuple(t.sliced_inds)}
+            return fn
+
+        errs = sched.run([body(0), body(1)], [2001, 2002], [None, None])
+    crashed = fsim.crashed
+    for e in errs:
+        if e is not None and not isinstance(e, simfs.SimCrash):
+            raise e
+    res = None
+    if not crashed and 0 in results and 1 in results:
+        res = dict(results[0])
+        res["also"] = results[1]
     return fsim, res, crashed
 
 
@@ -733,6 +841,9 @@ def _recover(ctg, case, directory, attempt, crash_at=None, cache_only=False, spl
 
 def run_case_c15(case):
     import cotengra as ctg
+    from sim import seams as _seams
+
+    _seams.hermetic_reset()
 
     simfs.install()
     log = EventLog()
@@ -804,6 +915,14 @@ def run_case_c15(case):
                 points = [tuple(p) for p in case["only_points"]]
             valid_paths = {tuple(map(tuple, new["path"]))}
             valid_sliced = {tuple(map(tuple, new["path"])): ({frozenset(new["sliced"])} if new["sliced"] is not None else None)}
+            if new.get("also") is not None:
+                p2 = tuple(map(tuple, new["also"]["path"]))
+                valid_paths.add(p2)
+                if new["also"]["sliced"] is not None and valid_sliced.get(p2, set()) is not None:
+                    valid_sliced.setdefault(p2, set()).add(frozenset(new["also"]["sliced"]))
+                else:
+                    valid_sliced.setdefault(p2, None)
+                counters["probe:two_writer_threads"] += 1
             if old is not None:
                 valid_paths.add(tuple(map(tuple, old["path"])))
                 if valid_sliced.get(tuple(map(tuple, old["path"])), set()) is not None:
